@@ -96,8 +96,8 @@ def decide(ctx, thorough):
         need(c.get(k, 0) > 0, "decision replay never observed outcome %s (%s)" % (k, c))
     need(c.get("dump_done", 0) > 10000, "decision table has only %s rows" % c.get("dump_done"))
     os.remove(dump)
-    if not thorough:
-        rp = ctx.tlc("Dns64", spec, "MC_DecideQuick_asbuilt_props.cfg", workers=WORKERS, timeout=400, heap="8g",
+    if True:
+        rp = ctx.tlc("Dns64", spec, "MC_Decide%s_asbuilt_props.cfg" % tier, workers=WORKERS, timeout=1200, heap="8g",
                      must_pass=False, tag="as-built table vs NeverAD/TtlMin (expected to fail on the model)", count=False)
         ctx.cov["replay"]["decide_asbuilt_model_invariant"] = {"violated_on_model": rp.violated}
         ctx.log("as-built model vs property invariants: %s" % (rp.violated or "all hold"))
